@@ -265,5 +265,14 @@ func C11(r *eng.Run) {
 		}
 	})
 	r.Phase("Frexp", t0, nil)
+
+	// R: values reached by operation sequences
+	reachedPhase(r, "R values reached by operation sequences", reachedAll(r), func(w *eng.W, b ref.Bits, v ref.Val) {
+		checkFrexp(w, b, v)
+		L := ref.NumDigits(v.C)
+		for _, e := range []int{0, 1, -1, 35, -35, ref.MinQ - v.Q, ref.MinQ - v.Q - L + 1, ref.MinQ - v.Q - L, ref.MinQ - v.Q - L - 1, ref.MaxQ - v.Q, ref.MaxQ - v.Q + 35 - L, ref.MaxQ - v.Q + 36 - L} {
+			checkLdexp(w, b, v, e)
+		}
+	})
 	r.Require("New/exact", "New/tiny0", "New/overflow", "New/subnormal", "New/subnormal/g5", "Ldexp/tiny0", "Ldexp/overflow", "Ldexp/subnormal", "Ldexp/subnormal/g5", "Ldexp/subnormal/g6-9", "Frexp/special-or-zero", "Frexp/finite/len35")
 }
